@@ -75,7 +75,10 @@ PREFIXES = ['', 'T154N-R97W ', 'T154N-R97W Sec 14', 'T154N-R97W Sec 14: ',
             'Township 154 ', 'T154 ', 'T154-R97 ', 'Sec 14: NE/4, Township 154',
             'Township 154 North, Range ',
             'T154N-R97W Sec 14: Lot 1 (', 'T154N-R97W Sec 14: Lot 1 [3',
-            'T154N-R97W Sec 14: Lots ', 'T154N-R97W Sec 14: Lots 1 - 2']
+            'T154N-R97W Sec 14: Lots ', 'T154N-R97W Sec 14: Lots 1 - 2',
+            # the word 'Section' / 'Sec' with a leader behind it that leads
+            # to no number ('... of the Section . . . . line')
+            'T154N-R97W Sec 14: NE/4 north of the Section', 'T154N-R97W Sec']
 SUFFIXES = ['', ' Sec 15: W/2', 'X', ' T154N-R97W', '1', ' P.M.', ' NE/4',
             '-A) NE/4', ' the T154N-R97W']
 TRACT_PREFIXES = ['', 'NE/4', 'N/2 of', 'Lot 1', 'Lots 1 - 3,', 'N½NE¼', 'Lots ',
